@@ -229,7 +229,7 @@ package analysis
 //@   props C11
 //@   requires cl != nil
 //@   requires forall N *types.Named :: has(unions, N) && is(accu[N], *Union) ==> as(accu[N], *Union).name == N
-//@   requires forall N *types.Named :: has(unions, N) ==> allocated(unions[N])
+//@   requires forall N *types.Named :: has(unions, N) ==> allocated(unions[N]) && is(N, *types.Named)
 //@   modifies cl.Implements
 //@   ghostset implementsSet cl
 //@   -- exactly the analysed unions that list this struct as a member ... (the union's own name is the witness)
